@@ -91,6 +91,15 @@ func runVerify(pk, msg, sig []byte) string {
 		if !bytes.Equal(m, msg) || !bytes.Equal(s, sig) {
 			return "inputs modified"
 		}
+		if len(msg) == 0 { // the empty message as a nil slice is the same message
+			var gotNil bool
+			if pn := lib.Try(func() { gotNil = k.Verify(nil, s) }); pn != "" {
+				return "Verify(nil message) panic: " + pn
+			}
+			if gotNil != want {
+				return fmt.Sprintf("Verify with the empty message passed as a nil slice = %v, BIP-340 Verify = %v", gotNil, want)
+			}
+		}
 		// history on the one key object: verification is a pure function of (key, message, signature), so a second
 		// and third call answer the same, and the key still exposes its x-coordinate and the even-y point
 		for n := 2; n <= 3; n++ {
@@ -267,6 +276,27 @@ func main() {
 				}
 				if mi > 2 && !th {
 					break
+				}
+			}
+			// everything consistent except the last comparison: r' = x(R) with ONE bit flipped, the challenge computed
+			// over r' and s' = k + e'*d, so that s'G - e'P = R exactly (even y), and only "x(R) = r" can reject
+			if mi == 4 && di < 2 {
+				k := big.NewInt(7)
+				for ref.BaseMul(k).Y.Bit(0) == 1 {
+					k.Add(k, one)
+				}
+				rx := ref.BaseMul(k).X
+				dd := new(big.Int).Set(d)
+				if ref.BaseMul(d).Y.Bit(0) == 1 {
+					dd.Sub(ref.N, d)
+				}
+				for bit := uint(0); bit < 256; bit++ {
+					r2 := new(big.Int).Xor(rx, new(big.Int).Lsh(one, bit))
+					if r2.Cmp(ref.P) >= 0 {
+						continue
+					}
+					e2 := ref.BIP340Challenge(b32(r2), pk, msg)
+					add(pk, msg, append(b32(r2), b32(ref.ZnAdd(k, ref.ZnMul(e2, dd)))...), "r differs from x(R) in one bit, all else consistent")
 				}
 			}
 			// R = infinity: s = e*d for an arbitrary r
